@@ -173,7 +173,10 @@ func changeNode(r *gen.RNG, p gen.Profile, v any) any {
 		case 1:
 			return t + 1
 		case 2:
-			return math.Nextafter(t, math.Inf(1)) // the neighbouring float64
+			if y := math.Nextafter(t, math.Inf(1)); !math.IsInf(y, 0) {
+				return y // the neighbouring float64
+			}
+			return math.Nextafter(t, 0)
 		default:
 			return gen.Scalar(r, p)
 		}
